@@ -25,6 +25,8 @@ Proof. intros H. induction n; cbn; auto. Qed.
 Lemma Forall_tl {A} (P : A -> Prop) l : Forall P l -> Forall P (tl l).
 Proof. intros F. destruct F; cbn; auto. Qed.
 
+Lemma map_repeat' {A B} (f : A -> B) x n : map f (repeat x n) = repeat (f x) n.
+Proof. induction n as [|n IH]; cbn [repeat map]; [reflexivity|]. rewrite IH. reflexivity. Qed.
 Lemma concat_singletons {A} (l : list A) : concat (map (fun c => [c]) l) = l.
 Proof. induction l as [|x l IH]; cbn; auto. rewrite IH. reflexivity. Qed.
 
@@ -204,7 +206,7 @@ Lemma hex_aux_spec fuel : forall n acc, n < 16 ^ N.of_nat fuel -> all_nib acc ->
   N_of_nibbles r = n * 16 ^ N.of_nat (length acc) + N_of_nibbles acc /\ all_nib r /\ (fuel <> 0%nat -> r <> []).
 Proof.
   induction fuel as [|f IH]; intros n acc H F; cbn [hex_aux].
-  - cbn in H. replace n with 0 by lia. split; [lia|]. split; auto. intros; congruence.
+  - change (16 ^ N.of_nat 0) with 1 in H. replace n with 0 by lia. split; [lia|]. split; [exact F|]. intros; congruence.
   - replace (N.of_nat (S f)) with (N.succ (N.of_nat f)) in H by lia. rewrite N.pow_succ_r' in H.
     destruct (N.ltb_spec n 16) as [Hn|Hn].
     + split; [apply N_of_nibbles_cons|]. split; [constructor; auto|]. intros; discriminate.
@@ -213,7 +215,9 @@ Proof.
       destruct (IH (n / 16) (n mod 16 :: acc) Hq Fq) as [E [Fr Hne]].
       split; [|split; auto].
       * rewrite E, N_of_nibbles_cons. cbn [length].
-        replace (N.of_nat (S (length acc))) with (N.succ (N.of_nat (length acc))) by lia. rewrite N.pow_succ_r'. nia.
+        replace (N.of_nat (S (length acc))) with (N.succ (N.of_nat (length acc))) by lia. rewrite N.pow_succ_r'.
+        generalize (N.div_mod' n 16). generalize (n / 16) (n mod 16) (16 ^ N.of_nat (length acc)).
+        intros q r p Hqr. rewrite Hqr. ring.
       * intros _. apply Hne. intros ->. cbn in Hq. lia.
 Qed.
 Lemma pos_size_nat_gt p : N.pos p < 2 ^ N.of_nat (Pos.size_nat p).
@@ -317,7 +321,7 @@ Proof. unfold byte_of_N. rewrite N.mod_mod by lia. reflexivity. Qed.
 
 Lemma list_pair_ind {A} (P : list A -> Prop) :
   P [] -> (forall x, P [x]) -> (forall x y l, P l -> P (x :: y :: l)) -> forall l, P l.
-Proof. intros H0 H1 H2. fix IH 1. intros [|x [|y l]]; auto. Qed.
+Proof. intros H0 H1 H2. fix IH 1. intros [|x [|y l]]; [exact H0|exact (H1 x)|exact (H2 x y l (IH l))]. Qed.
 
 Lemma bytes_of_nibbles_app l a b : Nat.even (length l) = true ->
   bytes_of_nibbles (l ++ [a; b]) = bytes_of_nibbles l ++ [byte_of_N (a * 16 + b)].
@@ -326,4 +330,658 @@ Proof.
   - reflexivity.
   - discriminate.
   - cbn [app bytes_of_nibbles]. rewrite IH; auto.
+Qed.
+
+Lemma bytes_of_nibbles_length l k : length l = (2 * k)%nat -> length (bytes_of_nibbles l) = k.
+Proof.
+  revert k. induction l as [|x|x y l IH] using list_pair_ind; intros k L; cbn [length] in L.
+  - cbn. lia.
+  - lia.
+  - cbn [bytes_of_nibbles length]. destruct k as [|k]; [lia|]. rewrite (IH k); lia.
+Qed.
+
+(* int.from_bytes / hexlify / unhexlify / to_bytes in terms of nibbles *)
+Lemma unbe_nibbles b : unbe b = N_of_nibbles (nibbles_of_bytes b).
+Proof.
+  unfold unbe, N_of_nibbles. generalize 0.
+  induction b as [|x b IH]; intros a; cbn [nibbles_of_bytes flat_map app fold_left]; [reflexivity|].
+  fold (nibbles_of_bytes b). rewrite <- IH. f_equal. lia.
+Qed.
+Lemma nibbles_of_bytes_nib b : all_nib (nibbles_of_bytes b).
+Proof.
+  induction b as [|x b IH]; cbn [nibbles_of_bytes flat_map app]; [constructor|].
+  pose proof (Byte.to_N_bounded x). unfold N_of_byte.
+  constructor; [lia|]. constructor; [lia|]. exact IH.
+Qed.
+Lemma nibbles_of_bytes_length b : length (nibbles_of_bytes b) = (2 * length b)%nat.
+Proof. induction b as [|x b IH]; cbn [nibbles_of_bytes flat_map app length]; [reflexivity|]. fold (nibbles_of_bytes b). lia. Qed.
+Lemma nibbles_of_bytes_of_nibbles l : Nat.even (length l) = true -> all_nib l -> nibbles_of_bytes (bytes_of_nibbles l) = l.
+Proof.
+  induction l as [|x|x y l IH] using list_pair_ind; intros Hev F.
+  - reflexivity.
+  - discriminate.
+  - inversion F as [|? ? Hx F']; subst. inversion F' as [|? ? Hy F'']; subst.
+    cbn [bytes_of_nibbles nibbles_of_bytes flat_map app]. fold (nibbles_of_bytes (bytes_of_nibbles l)).
+    rewrite IH by auto. rewrite N_of_byte_of_N by lia. f_equal; [lia|]. f_equal. lia.
+Qed.
+Lemma bytes_of_nibbles_of_bytes b : bytes_of_nibbles (nibbles_of_bytes b) = b.
+Proof.
+  induction b as [|x b IH]; cbn [nibbles_of_bytes flat_map app bytes_of_nibbles]; [reflexivity|].
+  fold (nibbles_of_bytes b). rewrite IH. f_equal.
+  replace (N_of_byte x / 16 * 16 + N_of_byte x mod 16) with (N_of_byte x) by lia. apply byte_of_N_of_byte.
+Qed.
+Lemma unbe_of_nibbles l : Nat.even (length l) = true -> all_nib l -> unbe (bytes_of_nibbles l) = N_of_nibbles l.
+Proof. intros Hev F. rewrite unbe_nibbles, nibbles_of_bytes_of_nibbles; auto. Qed.
+Lemma hexlify_nibbles b : hexlify b = map hexch (nibbles_of_bytes b).
+Proof.
+  induction b as [|x b IH]; cbn [hexlify nibbles_of_bytes flat_map app map]; [reflexivity|].
+  fold (hexlify b). fold (nibbles_of_bytes b). rewrite IH. reflexivity.
+Qed.
+Lemma hexlify_of_nibbles l : Nat.even (length l) = true -> all_nib l -> hexlify (bytes_of_nibbles l) = map hexch l.
+Proof. intros Hev F. rewrite hexlify_nibbles, nibbles_of_bytes_of_nibbles; auto. Qed.
+Lemma unhexlify_nibbles l : Nat.even (length l) = true -> all_nib l -> unhexlify (map hexch l) = Some (bytes_of_nibbles l).
+Proof.
+  induction l as [|x|x y l IH] using list_pair_ind; intros Hev F.
+  - reflexivity.
+  - discriminate.
+  - inversion F as [|? ? Hx F']; subst. inversion F' as [|? ? Hy F'']; subst.
+    cbn [map unhexlify bytes_of_nibbles].
+    destruct (nib_facts x Hx) as [-> _]. destruct (nib_facts y Hy) as [-> _]. rewrite IH by auto. reflexivity.
+Qed.
+Lemma unhexlify_str_nibbles l : Nat.even (length l) = true -> all_nib l ->
+  unhexlify_str (map hexch l) = Ok (bytes_of_nibbles l).
+Proof.
+  intros Hev F. unfold unhexlify_str.
+  replace (existsb (fun c => 128 <=? c) (map hexch l)) with false.
+  - rewrite unhexlify_nibbles; auto.
+  - symmetry. apply not_true_is_false. intros E. apply existsb_exists in E. destruct E as [c [Hc E]].
+    apply in_map_iff in Hc. destruct Hc as [d [<- Hd]]. unfold all_nib in F. rewrite Forall_forall in F.
+    destruct (nib_facts d (F d Hd)) as [_ [L _]]. apply N.leb_le in E. lia.
+Qed.
+Lemma be_bytes_nibbles w n : be_bytes w n = bytes_of_nibbles (nibbles_of_N (2 * w) n).
+Proof.
+  revert n. induction w as [|w IH]; intros n; [reflexivity|].
+  replace (2 * S w)%nat with (S (S (2 * w))) by lia. cbn [be_bytes nibbles_of_N].
+  rewrite <- app_assoc. cbn [app]. rewrite bytes_of_nibbles_app.
+  - rewrite IH. replace (n / 16 / 16) with (n / 256) by lia. f_equal. f_equal.
+    rewrite <- (byte_of_N_mod n). f_equal. lia.
+  - rewrite nibbles_of_N_length. rewrite Nat.even_mul. reflexivity.
+Qed.
+Lemma int_to_bytes_nibbles w l : length l = (2 * w)%nat -> all_nib l ->
+  int_to_bytes w (N_of_nibbles l) = Ok (bytes_of_nibbles l).
+Proof.
+  intros L F. unfold int_to_bytes.
+  assert (H: N_of_nibbles l < 256 ^ N.of_nat w).
+  { pose proof (N_of_nibbles_lt l F) as H. rewrite L in H.
+    replace (N.of_nat (2 * w)) with (2 * N.of_nat w) in H by lia. rewrite N.pow_mul_r in H. exact H. }
+  apply N.ltb_lt in H. rewrite H. rewrite be_bytes_nibbles, nibbles_of_N_inv; auto.
+Qed.
+
+(* ================= the PIN field as the code builds it ================= *)
+Lemma hexch_consts : c0 = hexch 0 /\ c4 = hexch 4 /\ cf = hexch 15 /\ ca = hexch 10.
+Proof. vm_compute. auto. Qed.
+
+Lemma pin_field_length ctl fill pin : (length pin <= 14)%nat -> length (pin_field ctl fill pin) = 16%nat.
+Proof. intros H. unfold pin_field. rewrite !app_length, repeat_length. cbn [length]. lia. Qed.
+Lemma pin_field_nib ctl fill pin : ctl < 16 -> fill < 16 -> (length pin <= 14)%nat -> all_dec pin -> all_nib (pin_field ctl fill pin).
+Proof.
+  intros Hc Hf L F. unfold pin_field. apply Forall_app. split.
+  - constructor; [exact Hc|]. constructor; [lia|constructor].
+  - apply Forall_app. split; [apply nib_of_dec; exact F|apply Forall_repeat; exact Hf].
+Qed.
+Lemma pin_field_str ctl fill pin : (length pin <= 14)%nat -> all_dec pin ->
+  pad_right (hexch fill) 16 ([hexch ctl] ++ fmt_x (N.of_nat (length (dstr pin))) ++ dstr pin)
+  = map hexch (pin_field ctl fill pin).
+Proof.
+  intros L F. assert (Ld: length (dstr pin) = length pin) by apply map_length.
+  unfold pad_right, pin_field, fmt_x. rewrite Ld. rewrite hex_digits_small by lia.
+  rewrite !app_length, Ld. cbn [map length app].
+  rewrite !map_app, map_repeat'. cbn [map app]. rewrite (hexch_dstr pin F).
+  replace (16 - S (S (length pin)))%nat with (14 - length pin)%nat by lia. reflexivity.
+Qed.
+(* reading the field back: p1[1:2] and p1[2:2+n] *)
+Lemma slice_1_2 {A} (a b : A) r : slice 1 2 (a :: b :: r) = [b].
+Proof. reflexivity. Qed.
+Lemma slice_2_n {A} (a b : A) r n : slice 2 (2 + n) (a :: b :: r) = firstn n r.
+Proof. unfold slice. replace (2 + n - 2)%nat with n by lia. reflexivity. Qed.
+Lemma pin_field_read_app ctl fill pin rest : ctl < 16 -> (length pin <= 14)%nat -> all_dec pin ->
+  let p1 := map hexch (pin_field ctl fill pin) ++ rest in
+  (do n <- py_int16 (slice 1 2 p1); Ok (slice 2 (2 + N.to_nat n) p1)) = Ok (dstr pin).
+Proof.
+  intros Hc L F p1. subst p1. unfold pin_field. cbn [app map]. rewrite slice_1_2.
+  change [hexch (N.of_nat (length pin))] with (map hexch [N.of_nat (length pin)]).
+  rewrite py_int16_nibs; [|discriminate|constructor; [lia|constructor]].
+  change (N_of_nibbles [N.of_nat (length pin)]) with (0 * 16 + N.of_nat (length pin)).
+  cbn [bind]. rewrite slice_2_n. rewrite map_app, <- app_assoc.
+  replace (N.to_nat (0 * 16 + N.of_nat (length pin))) with (length pin) by lia.
+  rewrite firstn_exact by (rewrite map_length; reflexivity). rewrite hexch_dstr by exact F. reflexivity.
+Qed.
+Lemma pin_field_read ctl fill pin : ctl < 16 -> (length pin <= 14)%nat -> all_dec pin ->
+  let p1 := map hexch (pin_field ctl fill pin) in
+  (do n <- py_int16 (slice 1 2 p1); Ok (slice 2 (2 + N.to_nat n) p1)) = Ok (dstr pin).
+Proof.
+  intros Hc L F. pose proof (pin_field_read_app ctl fill pin [] Hc L F) as R. rewrite app_nil_r in R. exact R.
+Qed.
+
+(* the PAN field as the code builds it: '0000' + card_number[-13:-1] *)
+Lemma pan_field_str pan : all_dec pan ->
+  [c0; c0; c0; c0] ++ py_slice_neg 13 1 (dstr pan) = map hexch ([0; 0; 0; 0] ++ pan_field 12 pan).
+Proof.
+  intros F. rewrite py_slice_neg_last. unfold dstr. rewrite pan_field_map. fold (pan_field 12 pan).
+  rewrite map_app. rewrite (hexch_dstr (pan_field 12 pan)) by (apply pan_field_Forall; exact F).
+  destruct hexch_consts as [-> _]. reflexivity.
+Qed.
+Lemma pan0_length pan : (13 <= length pan)%nat -> length ([0; 0; 0; 0] ++ pan_field 12 pan) = 16%nat.
+Proof. intros H. rewrite app_length, pan_field_length by lia. reflexivity. Qed.
+Lemma pan0_nib pan : all_dec pan -> all_nib ([0; 0; 0; 0] ++ pan_field 12 pan).
+Proof.
+  intros F. apply Forall_app. split; [repeat constructor|].
+  apply nib_of_dec. apply pan_field_Forall. exact F.
+Qed.
+
+Lemma nonempty_of_length {A} (l : list A) n : length l = S n -> l <> [].
+Proof. intros H ->. discriminate. Qed.
+
+(* ================= format 0 ================= *)
+Lemma spec0_shape pin pan : (length pin <= 14)%nat -> all_dec pin -> all_dec pan -> (13 <= length pan)%nat ->
+  length (spec0 pin pan) = 16%nat /\ all_nib (spec0 pin pan).
+Proof.
+  intros L F Fp Lp. unfold spec0. split.
+  - rewrite xor2_length; [apply pin_field_length; auto|]. rewrite pin_field_length, pan0_length; auto.
+  - apply xor2_nib; [apply pin_field_nib; auto; lia|apply pan0_nib; auto].
+Qed.
+
+Lemma iso0_to_bytes_spec pin pan : (length pin <= 14)%nat -> all_dec pin -> all_dec pan -> (13 <= length pan)%nat ->
+  iso0_to_bytes (dstr pin) (dstr pan) = Ok (bytes_of_nibbles (spec0 pin pan)).
+Proof.
+  intros L F Fp Lp. unfold iso0_to_bytes.
+  destruct hexch_consts as [E0 [_ [Ef _]]]. rewrite Ef. rewrite E0 at 1.
+  rewrite (pin_field_str 0 15 pin L F). rewrite (pan_field_str pan Fp).
+  assert (L1 := pin_field_length 0 15 pin L). assert (L2 := pan0_length pan Lp).
+  assert (F1 := pin_field_nib 0 15 pin ltac:(lia) ltac:(lia) L F). assert (F2 := pan0_nib pan Fp).
+  rewrite py_int16_nibs by (eauto using nonempty_of_length). cbn [bind].
+  rewrite py_int16_nibs by (eauto using nonempty_of_length). cbn [bind].
+  rewrite <- N_of_nibbles_xor by (auto; lia). fold (spec0 pin pan).
+  destruct (spec0_shape pin pan L F Fp Lp) as [Ls Fs].
+  apply int_to_bytes_nibbles; auto.
+Qed.
+
+Lemma iso0_from_bytes_spec pin pan : (length pin <= 14)%nat -> all_dec pin -> all_dec pan -> (13 <= length pan)%nat ->
+  iso0_from_bytes (bytes_of_nibbles (spec0 pin pan)) (dstr pan) = Ok (dstr pin).
+Proof.
+  intros L F Fp Lp. unfold iso0_from_bytes.
+  rewrite (pan_field_str pan Fp).
+  assert (L1 := pin_field_length 0 15 pin L). assert (L2 := pan0_length pan Lp).
+  assert (F1 := pin_field_nib 0 15 pin ltac:(lia) ltac:(lia) L F). assert (F2 := pan0_nib pan Fp).
+  destruct (spec0_shape pin pan L F Fp Lp) as [Ls Fs].
+  rewrite py_int16_nibs by (eauto using nonempty_of_length). cbn [bind].
+  rewrite unbe_of_nibbles by (auto; rewrite Ls; reflexivity).
+  unfold spec0 at 1 2. rewrite N_of_nibbles_xor by (auto; lia). rewrite lxor_cancel_r.
+  rewrite fmt_0x_nibs by auto.
+  apply pin_field_read; auto. lia.
+Qed.
+
+(* ================= format 4 ================= *)
+Lemma spec4_shape pin rnd : (length pin <= 14)%nat -> all_dec pin ->
+  length (spec4 pin rnd) = 32%nat /\ all_nib (spec4 pin rnd).
+Proof.
+  intros L F. unfold spec4. split.
+  - rewrite app_length, pin_field_length, nibbles_of_N_length; auto.
+  - apply Forall_app. split; [apply pin_field_nib; auto; lia|apply nibbles_of_N_nib].
+Qed.
+Lemma iso4_to_bytes_spec pin rnd : (length pin <= 14)%nat -> all_dec pin -> rnd < 2 ^ 64 ->
+  iso4_to_bytes (dstr pin) rnd = Ok (bytes_of_nibbles (spec4 pin rnd)).
+Proof.
+  intros L F Hr. unfold iso4_to_bytes.
+  destruct hexch_consts as [_ [E4 [_ Ea]]]. rewrite Ea, E4.
+  rewrite (pin_field_str 4 10 pin L F). rewrite fmt_0x_small by exact Hr.
+  rewrite <- map_app. fold (spec4 pin rnd).
+  destruct (spec4_shape pin rnd L F) as [Ls Fs].
+  apply unhexlify_str_nibbles; auto. rewrite Ls. reflexivity.
+Qed.
+Lemma iso4_from_bytes_spec pin rnd : (length pin <= 14)%nat -> all_dec pin ->
+  iso4_from_bytes (bytes_of_nibbles (spec4 pin rnd)) = Ok (dstr pin).
+Proof.
+  intros L F. unfold iso4_from_bytes.
+  destruct (spec4_shape pin rnd L F) as [Ls Fs].
+  rewrite hexlify_of_nibbles by (auto; rewrite Ls; reflexivity).
+  unfold spec4. rewrite map_app. apply pin_field_read_app; auto. lia.
+Qed.
+
+(* ================= Visa PVV: TSP and decimalisation (cipher-free parts) ================= *)
+Lemma get_tsp_spec pan kidx pin : kidx < 10 -> get_tsp (dstr pan) kidx (dstr pin) = dstr (tsp_spec pan kidx pin).
+Proof.
+  intros Hk. unfold get_tsp, tsp_spec. rewrite py_slice_neg_last. unfold dstr. rewrite pan_field_map.
+  fold (pan_field 11 pan). unfold str_of_N. rewrite dec_digits_small by exact Hk. rewrite firstn_map, !map_app. reflexivity.
+Qed.
+Lemma tsp_spec_shape pan kidx pin : (12 <= length pan)%nat -> (4 <= length pin)%nat -> kidx < 10 -> all_dec pan -> all_dec pin ->
+  length (tsp_spec pan kidx pin) = 16%nat /\ all_dec (tsp_spec pan kidx pin).
+Proof.
+  intros Lp L Hk Fp F. unfold tsp_spec. split.
+  - rewrite !app_length, pan_field_length, firstn_length by lia. cbn [length]. lia.
+  - apply Forall_app. split; [apply pan_field_Forall; exact Fp|].
+    apply Forall_app. split; [constructor; [exact Hk|constructor]|apply Forall_firstn; exact F].
+Qed.
+Lemma tsp_bytes pan kidx pin : (12 <= length pan)%nat -> (4 <= length pin)%nat -> kidx < 10 -> all_dec pan -> all_dec pin ->
+  unhexlify_str (dstr (tsp_spec pan kidx pin)) = Ok (bytes_of_nibbles (tsp_spec pan kidx pin)) /\
+  length (bytes_of_nibbles (tsp_spec pan kidx pin)) = 8%nat.
+Proof.
+  intros Lp L Hk Fp F. destruct (tsp_spec_shape pan kidx pin Lp L Hk Fp F) as [Lt Ft].
+  split; [|apply bytes_of_nibbles_length; rewrite Lt; reflexivity].
+  rewrite <- hexch_dstr by exact Ft. apply unhexlify_str_nibbles; [rewrite Lt; reflexivity|apply nib_of_dec; exact Ft].
+Qed.
+
+Lemma filter_digit_nibs ns : all_nib ns -> filter is_digit (map hexch ns) = map hexch (filter (fun d => d <? 10) ns).
+Proof.
+  induction 1 as [|d ns Hd F IH]; cbn [map filter]; [reflexivity|].
+  destruct (nib_facts d Hd) as [_ [_ [-> _]]]. destruct (d <? 10); cbn [map]; rewrite IH; reflexivity.
+Qed.
+Lemma pass2_nibs ns : all_nib ns ->
+  flat_map pvv_pass2 (map hexch ns) = map (fun d => [dch (d - 10)]) (filter (fun d => 10 <=? d) ns).
+Proof.
+  induction 1 as [|d ns Hd F IH]; cbn [map flat_map filter]; [reflexivity|].
+  destruct (nib_facts d Hd) as [_ [_ [_ [-> _]]]]. destruct (10 <=? d); cbn [map app]; rewrite IH; reflexivity.
+Qed.
+Lemma filter_split_length (l : list N) :
+  Nat.add (length (filter (fun d => d <? 10) l)) (length (filter (fun d => 10 <=? d) l)) = length l.
+Proof.
+  induction l as [|d l IH]; cbn [filter]; [reflexivity|].
+  destruct (d <? 10) eqn:E1; destruct (10 <=? d) eqn:E2; cbn [length]; lia.
+Qed.
+
+Lemma pvv_of_ct_spec ct : pvv_of_ct ct = dstr (visa_spec (nibbles_of_bytes ct)).
+Proof.
+  unfold pvv_of_ct, visa_spec. rewrite hexlify_nibbles.
+  pose proof (nibbles_of_bytes_nib ct) as F. set (ns := nibbles_of_bytes ct) in *.
+  rewrite (filter_digit_nibs ns F), (pass2_nibs ns F).
+  set (A := filter (fun d => d <? 10) ns). set (B := filter (fun d => 10 <=? d) ns).
+  assert (FA: all_dec A).
+  { apply Forall_forall. intros d Hd. apply filter_In in Hd. destruct Hd as [_ Hd]. apply N.ltb_lt. exact Hd. }
+  rewrite (hexch_dstr A FA). rewrite map_length.
+  replace (map (fun d => [dch (d - 10)]) B) with (map (fun c : N => [c]) (dstr (map (fun d => d - 10) B)))
+    by (unfold dstr; rewrite !map_map; reflexivity).
+  replace (dstr (firstn 4 (A ++ map (fun d => d - 10) B)))
+    with (firstn 4 (dstr A ++ dstr (map (fun d => d - 10) B)))
+    by (unfold dstr; rewrite <- map_app, firstn_map; reflexivity).
+  destruct (Nat.ltb_spec (length (dstr A)) 4) as [H|H].
+  - rewrite <- map_app, firstn_map, concat_singletons. reflexivity.
+  - rewrite firstn_map, concat_singletons. rewrite firstn_app.
+    replace (4 - length (dstr A))%nat with 0%nat by lia. cbn [firstn]. rewrite app_nil_r. reflexivity.
+Qed.
+Lemma visa_spec_shape ns : all_nib ns -> (4 <= length ns)%nat -> length (visa_spec ns) = 4%nat /\ all_dec (visa_spec ns).
+Proof.
+  intros F L. unfold visa_spec. split.
+  - rewrite firstn_length, app_length, map_length. pose proof (filter_split_length ns). lia.
+  - apply Forall_firstn. apply Forall_app. split.
+    + apply Forall_forall. intros d Hd. apply filter_In in Hd. destruct Hd as [_ Hd]. apply N.ltb_lt. exact Hd.
+    + apply Forall_forall. intros d Hd. apply in_map_iff in Hd. destruct Hd as [x [<- Hx]].
+      apply filter_In in Hx. destruct Hx as [Hx _]. unfold all_nib in F. rewrite Forall_forall in F. specialize (F x Hx). lia.
+Qed.
+
+(* ================= key components ================= *)
+Definition hexstr (s : str) : Prop := s <> [] /\ forallb is_hex s = true.
+(* the number a hex string denotes, read nibble by nibble *)
+Definition hexN (s : str) : N := N_of_nibbles (nibs_of_hex s).
+
+Lemma zeros32 : repeat c0 32 = fmt_0x 32 0 /\ N_of_nibbles (repeat 0 32) = 0.
+Proof. vm_compute. auto. Qed.
+
+Lemma zmk_fold_spec parts : Forall hexstr parts -> forall a,
+  zmk_fold (fmt_0x 32 a) parts = Ok (fmt_0x 32 (fold_left N.lxor (map hexN parts) a)).
+Proof.
+  induction 1 as [|s parts [Hne Hs] F IH]; intros a; cbn [zmk_fold map fold_left]; [reflexivity|].
+  rewrite py_int16_fmt_0x by discriminate. cbn [bind]. rewrite (py_int16_hexstr s Hne Hs). cbn [bind]. apply IH.
+Qed.
+Lemma fold_lxor l : fold_left N.lxor l 0 = combine_N l.
+Proof.
+  unfold combine_N. apply fold_symmetric.
+  - intros x y z. symmetry. apply N.lxor_assoc.
+  - intros y. rewrite N.lxor_0_l, N.lxor_0_r. reflexivity.
+Qed.
+Lemma zmk_combine_spec parts : Forall hexstr parts -> zmk_combine parts = Ok (fmt_0x 32 (combine_N (map hexN parts))).
+Proof.
+  intros F. unfold zmk_combine. destruct zeros32 as [-> _]. rewrite (zmk_fold_spec parts F 0), fold_lxor. reflexivity.
+Qed.
+
+Lemma combine_N_perm l1 l2 : Permutation l1 l2 -> combine_N l1 = combine_N l2.
+Proof.
+  unfold combine_N. induction 1 as [|x l1 l2 P IH|x y l|l1 l2 l3 P1 IH1 P2 IH2]; cbn [fold_right].
+  - reflexivity.
+  - rewrite IH. reflexivity.
+  - rewrite <- !N.lxor_assoc, (N.lxor_comm y x). reflexivity.
+  - congruence.
+Qed.
+Lemma combine_N_twice k l : combine_N (k :: k :: l) = combine_N l.
+Proof. unfold combine_N. cbn [fold_right]. rewrite <- N.lxor_assoc, N.lxor_nilpotent, N.lxor_0_l. reflexivity. Qed.
+
+Lemma zmk_combine_perm ps qs : Forall hexstr ps -> Permutation ps qs -> zmk_combine ps = zmk_combine qs.
+Proof.
+  intros F P. rewrite (zmk_combine_spec ps F), (zmk_combine_spec qs (Permutation_Forall P F)).
+  rewrite (combine_N_perm _ _ (Permutation_map hexN P)). reflexivity.
+Qed.
+Lemma zmk_combine_twice k ps : hexstr k -> Forall hexstr ps -> zmk_combine (k :: k :: ps) = zmk_combine ps.
+Proof.
+  intros Hk F. rewrite (zmk_combine_spec ps F), (zmk_combine_spec (k :: k :: ps))
+    by (constructor; [exact Hk|constructor; [exact Hk|exact F]]).
+  cbn [map]. rewrite combine_N_twice. reflexivity.
+Qed.
+
+Lemma lxor_lt_pow2 a b n : a < 2 ^ n -> b < 2 ^ n -> N.lxor a b < 2 ^ n.
+Proof.
+  intros Ha Hb.
+  destruct (N.eq_dec a 0) as [->|Ha0]; [rewrite N.lxor_0_l; exact Hb|].
+  destruct (N.eq_dec b 0) as [->|Hb0]; [rewrite N.lxor_0_r; exact Ha|].
+  destruct (N.eq_dec (N.lxor a b) 0) as [->|Hn]; [lia|].
+  apply N.log2_lt_pow2; [lia|]. eapply N.le_lt_trans; [apply N.log2_lxor|].
+  apply N.max_lub_lt; apply N.log2_lt_pow2; auto; lia.
+Qed.
+Lemma combine_N_lt n l : Forall (fun x => x < 2 ^ n) l -> combine_N l < 2 ^ n.
+Proof.
+  unfold combine_N. induction 1 as [|x l Hx F IH]; cbn [fold_right].
+  - apply N.neq_0_lt_0, N.pow_nonzero. lia.
+  - apply lxor_lt_pow2; auto.
+Qed.
+Lemma pow16_32 : 16 ^ 32 = 2 ^ 128.
+Proof. vm_compute. reflexivity. Qed.
+
+Lemma hexval_lt c v : hexval c = Some v -> v < 16.
+Proof.
+  unfold hexval. destruct ((48 <=? c) && (c <=? 57)) eqn:E1; [intros H; inversion H; lia|].
+  destruct ((97 <=? c) && (c <=? 102)) eqn:E2; [intros H; inversion H; lia|].
+  destruct ((65 <=? c) && (c <=? 70)) eqn:E3; [intros H; inversion H; lia|discriminate].
+Qed.
+Lemma nibs_of_hex_nib s : all_nib (nibs_of_hex s).
+Proof.
+  unfold nibs_of_hex. apply Forall_forall. intros d Hd. apply in_map_iff in Hd. destruct Hd as [c [<- _]].
+  unfold hexnib. destruct (hexval c) eqn:E; [apply (hexval_lt c); exact E|lia].
+Qed.
+Lemma hexN_lt s : (length s <= 32)%nat -> hexN s < 2 ^ 128.
+Proof.
+  intros L. unfold hexN. pose proof (N_of_nibbles_lt _ (nibs_of_hex_nib s)) as H.
+  unfold nibs_of_hex in H at 2. rewrite map_length in H. rewrite <- pow16_32.
+  eapply N.lt_le_trans; [exact H|]. apply N.pow_le_mono_r; lia.
+Qed.
+
+(* components of at most 32 hex digits: the result is a 32-digit string, i.e. a 16-byte key *)
+Lemma zmk_combine_bounded ps : Forall (fun s => hexstr s /\ (length s <= 32)%nat) ps ->
+  let nibs := nibbles_of_N 32 (combine_N (map hexN ps)) in
+  zmk_combine ps = Ok (map hexch nibs) /\ length nibs = 32%nat /\ all_nib nibs /\
+  N_of_nibbles nibs = combine_N (map hexN ps) /\
+  unhexlify_str (map hexch nibs) = Ok (bytes_of_nibbles nibs) /\ length (bytes_of_nibbles nibs) = 16%nat.
+Proof.
+  intros F nibs.
+  assert (F1: Forall hexstr ps) by (eapply Forall_impl; [|exact F]; intros s [H _]; exact H).
+  assert (B: combine_N (map hexN ps) < 16 ^ N.of_nat 32).
+  { change (N.of_nat 32) with 32. rewrite pow16_32. apply combine_N_lt. apply Forall_forall. intros x Hx.
+    apply in_map_iff in Hx. destruct Hx as [s [<- Hs]]. rewrite Forall_forall in F. apply hexN_lt, (F s Hs). }
+  assert (Ln: length nibs = 32%nat) by apply nibbles_of_N_length.
+  assert (Fn: all_nib nibs) by apply nibbles_of_N_nib.
+  split; [rewrite (zmk_combine_spec ps F1); f_equal; apply fmt_0x_small; exact B|].
+  split; [exact Ln|]. split; [exact Fn|]. split; [apply N_of_nibbles_of_N; exact B|].
+  split; [apply unhexlify_str_nibbles; auto; rewrite Ln; reflexivity|apply bytes_of_nibbles_length; rewrite Ln; reflexivity].
+Qed.
+
+(* components of exactly 32 hex digits: the nibble-wise XOR of the components *)
+Lemma combine_fields_fold fs : Forall (fun f => length f = 32%nat /\ all_nib f) fs -> forall acc, length acc = 32%nat -> all_nib acc ->
+  let r := fold_left xor2 fs acc in
+  N_of_nibbles r = fold_left N.lxor (map N_of_nibbles fs) (N_of_nibbles acc) /\ length r = 32%nat /\ all_nib r.
+Proof.
+  induction 1 as [|f fs [Lf Ff] F IH]; intros acc La Fa; cbn [fold_left map].
+  - auto.
+  - destruct (IH (xor2 acc f)) as [E [L' F']].
+    + rewrite xor2_length; lia.
+    + apply xor2_nib; auto.
+    + split; [|auto]. cbv zeta in E. rewrite E. rewrite N_of_nibbles_xor by (auto; lia). reflexivity.
+Qed.
+Lemma zmk_combine_fields ps : Forall (fun s => length s = 32%nat /\ forallb is_hex s = true) ps ->
+  zmk_combine ps = Ok (map hexch (combine_fields (map nibs_of_hex ps))).
+Proof.
+  intros F.
+  assert (F1: Forall hexstr ps).
+  { eapply Forall_impl; [|exact F]. intros s [L H]. split; [|exact H]. intros ->. discriminate. }
+  assert (F2: Forall (fun f => length f = 32%nat /\ all_nib f) (map nibs_of_hex ps)).
+  { apply Forall_forall. intros f Hf. apply in_map_iff in Hf. destruct Hf as [s [<- Hs]].
+    rewrite Forall_forall in F. destruct (F s Hs) as [L _]. split; [unfold nibs_of_hex; rewrite map_length; exact L|apply nibs_of_hex_nib]. }
+  assert (Z0: all_nib (repeat 0 32)) by (apply Forall_repeat; lia).
+  destruct (combine_fields_fold _ F2 (repeat 0 32) (repeat_length _ _) Z0) as [E [L' F']].
+  cbv zeta in E, L', F'. fold (combine_fields (map nibs_of_hex ps)) in E, L', F'.
+  rewrite (zmk_combine_spec ps F1). rewrite <- fold_lxor.
+  destruct zeros32 as [_ Z]. rewrite Z in E. unfold hexN. rewrite <- (map_map nibs_of_hex N_of_nibbles). rewrite <- E.
+  rewrite fmt_0x_nibs; auto.
+Qed.
+
+(* key check value: leading hex digits of the cipher output *)
+Lemma kcv_of_ct_spec ct n : kcv_of_ct ct n = map hexch (kcv_spec (nibbles_of_bytes ct) n).
+Proof. unfold kcv_of_ct, kcv_spec, slice. rewrite Nat.sub_0_r. cbn [skipn]. rewrite hexlify_nibbles, firstn_map. reflexivity. Qed.
+
+Close Scope N_scope.
+
+(* ================= everything that goes through the external cipher ================= *)
+Section Ciphers.
+  Variables E D : bytes -> bytes -> bytes.
+  Hypothesis DE : forall k x, D k (E k x) = x.
+  (* ECB without padding returns as many bytes as it is given *)
+  Hypothesis E_len : forall k x, length (E k x) = length x.
+
+  Lemma ecb_apply_ok a F key k data : unhexlify_str key = Ok k -> key_size_ok a k = true ->
+    Nat.modulo (length data) (alg_block a) = 0 -> ecb_apply a F key data = Ok (F k data).
+  Proof. intros Hk Hs Hl. unfold ecb_apply. rewrite Hk. cbn [bind]. rewrite Hs, Hl. reflexivity. Qed.
+
+  Lemma iso0_enc_spec a key k pin pan :
+    unhexlify_str key = Ok k -> key_size_ok a k = true -> Nat.modulo 8 (alg_block a) = 0 ->
+    length pin <= 14 -> all_dec pin -> all_dec pan -> 13 <= length pan ->
+    let clear := bytes_of_nibbles (spec0 pin pan) in
+    iso0_to_enc a E key (dstr pin) (dstr pan) = Ok (E k clear) /\
+    iso0_from_enc a D key (E k clear) (dstr pan) = Ok (dstr pin).
+  Proof.
+    intros Hk Hs Hb L F Fp Lp clear.
+    destruct (spec0_shape pin pan L F Fp Lp) as [Ls Fs].
+    assert (Lc: length clear = 8) by (apply bytes_of_nibbles_length; rewrite Ls; reflexivity).
+    unfold iso0_to_enc, iso0_from_enc. rewrite (iso0_to_bytes_spec pin pan L F Fp Lp). cbn [bind]. fold clear.
+    rewrite (ecb_apply_ok a E key k clear Hk Hs) by (rewrite Lc; exact Hb).
+    rewrite (ecb_apply_ok a D key k (E k clear) Hk Hs) by (rewrite E_len, Lc; exact Hb).
+    cbn [bind]. rewrite DE. split; [reflexivity|]. apply iso0_from_bytes_spec; auto.
+  Qed.
+
+  Lemma iso4_enc_spec a key k pin rnd :
+    unhexlify_str key = Ok k -> key_size_ok a k = true -> Nat.modulo 16 (alg_block a) = 0 ->
+    length pin <= 14 -> all_dec pin -> (rnd < 2 ^ 64)%N ->
+    let clear := bytes_of_nibbles (spec4 pin rnd) in
+    iso4_to_enc a E key (dstr pin) rnd = Ok (E k clear) /\
+    iso4_from_enc a D key (E k clear) = Ok (dstr pin).
+  Proof.
+    intros Hk Hs Hb L F Hr clear.
+    destruct (spec4_shape pin rnd L F) as [Ls Fs].
+    assert (Lc: length clear = 16) by (apply bytes_of_nibbles_length; rewrite Ls; reflexivity).
+    unfold iso4_to_enc, iso4_from_enc. rewrite (iso4_to_bytes_spec pin rnd L F Hr). cbn [bind]. fold clear.
+    rewrite (ecb_apply_ok a E key k clear Hk Hs) by (rewrite Lc; exact Hb).
+    rewrite (ecb_apply_ok a D key k (E k clear) Hk Hs) by (rewrite E_len, Lc; exact Hb).
+    cbn [bind]. rewrite DE. split; [reflexivity|]. apply iso4_from_bytes_spec; auto.
+  Qed.
+
+End Ciphers.
+
+Section CipherE.
+  Variable E : bytes -> bytes -> bytes.
+  Hypothesis E_len : forall k x, length (E k x) = length x.
+
+  Lemma calculate_pvv_spec pin key k kidx pan :
+    unhexlify_str key = Ok k -> key_size_ok TDES k = true ->
+    12 <= length pan -> 4 <= length pin -> (kidx < 10)%N -> all_dec pan -> all_dec pin ->
+    let ct := E k (bytes_of_nibbles (tsp_spec pan kidx pin)) in
+    calculate_pvv E (dstr pin) key kidx (dstr pan) = Ok (dstr (visa_spec (nibbles_of_bytes ct))) /\
+    to_pvv E (dstr pin) key kidx (dstr pan) = Ok (dstr (visa_spec (nibbles_of_bytes ct))) /\
+    length (visa_spec (nibbles_of_bytes ct)) = 4 /\ all_dec (visa_spec (nibbles_of_bytes ct)).
+  Proof.
+    intros Hk Hs Lp L Hi Fp F ct.
+    destruct (tsp_bytes pan kidx pin Lp L Hi Fp F) as [U Lb].
+    assert (C: calculate_pvv E (dstr pin) key kidx (dstr pan) = Ok (dstr (visa_spec (nibbles_of_bytes ct)))).
+    { unfold calculate_pvv. rewrite Hk. cbn [bind]. rewrite Hs. rewrite (get_tsp_spec pan kidx pin Hi), U. cbn [bind].
+      rewrite Lb. change (Nat.eqb (Nat.modulo 8 8) 0) with true. cbv iota. rewrite pvv_of_ct_spec. reflexivity. }
+    split; [exact C|]. split.
+    - unfold to_pvv. destruct pan as [|p pan]; [cbn in Lp; lia|]. cbn [dstr map]. exact C.
+    - apply visa_spec_shape; [apply nibbles_of_bytes_nib|].
+      rewrite nibbles_of_bytes_length. subst ct. rewrite E_len, Lb. lia.
+  Qed.
+
+  Lemma calculate_kcv_spec k n : key_size_ok TDES k = true ->
+    calculate_kcv E k n = Ok (map hexch (kcv_spec (nibbles_of_bytes (E k (repeat x00 16))) n)).
+  Proof. intros Hs. unfold calculate_kcv. rewrite Hs, kcv_of_ct_spec. reflexivity. Qed.
+
+  Lemma key16_ok k : length k = 16 -> key_size_ok TDES k = true.
+  Proof. intros L. unfold key_size_ok. rewrite L. reflexivity. Qed.
+
+  Lemma zone_master_key_spec ps master mk :
+    Forall (fun s => hexstr s /\ length s <= 32) ps ->
+    unhexlify_str master = Ok mk -> key_size_ok TDES mk = true ->
+    let nibs := nibbles_of_N 32 (combine_N (map hexN ps)) in
+    let key := bytes_of_nibbles nibs in
+    let kcv := map hexch (kcv_spec (nibbles_of_bytes (E key (repeat x00 16))) 6) in
+    get_zone_master_key E ps = Ok (map hexch nibs, kcv) /\
+    get_enc_zone_master_key E master ps = Ok (hexlify (E mk key), kcv).
+  Proof.
+    intros F Hm Hs nibs key kcv.
+    destruct (zmk_combine_bounded ps F) as [Z [Ln [Fn [_ [U Lk]]]]]. fold nibs in Z, Ln, Fn, U, Lk. fold key in U, Lk.
+    assert (G: get_zone_master_key E ps = Ok (map hexch nibs, kcv)).
+    { unfold get_zone_master_key. rewrite Z. cbn [bind]. rewrite U. cbn [bind].
+      rewrite (calculate_kcv_spec key 6 (key16_ok key Lk)). reflexivity. }
+    split; [exact G|].
+    unfold get_enc_zone_master_key. rewrite G. cbn [bind fst snd]. unfold encrypt_key. rewrite Hm. cbn [bind].
+    rewrite U. cbn [bind]. rewrite Hs, Lk. reflexivity.
+  Qed.
+End CipherE.
+
+(* ================= the specification decodes (it is not vacuous) ================= *)
+Lemma xor2_involutive a b : length a = length b -> xor2 (xor2 a b) b = a.
+Proof.
+  revert b. induction a as [|x a IH]; intros [|y b] L; try discriminate; cbn [xor2]; [reflexivity|].
+  rewrite lxor_cancel_r, IH; auto.
+Qed.
+Lemma pin_of_field_pin_field ctl fill pin rest : pin_of_field (pin_field ctl fill pin ++ rest) = pin.
+Proof.
+  unfold pin_field, pin_of_field. cbn [app]. rewrite Nat2N.id, <- app_assoc. apply firstn_exact. reflexivity.
+Qed.
+Lemma spec_decodes pin pan rnd : length pin <= 14 -> 13 <= length pan ->
+  pin_of_field (xor2 (spec0 pin pan) ([0; 0; 0; 0]%N ++ pan_field 12 pan)) = pin /\ pin_of_field (spec4 pin rnd) = pin.
+Proof.
+  intros L Lp. split.
+  - unfold spec0. rewrite xor2_involutive by (rewrite pin_field_length, pan0_length; auto).
+    rewrite <- (app_nil_r (pin_field 0 15 pin)). apply pin_of_field_pin_field.
+  - unfold spec4. apply pin_of_field_pin_field.
+Qed.
+
+(* ================= statements in the form used by props/C13.v and props/C14.v ================= *)
+Lemma key_size_ok_iff a k : key_size_ok a k = true <-> In (length k) (alg_keys a).
+Proof.
+  unfold key_size_ok. rewrite existsb_exists. split.
+  - intros [n [Hn E]]. apply Nat.eqb_eq in E. rewrite E. exact Hn.
+  - intros H. exists (length k). split; [exact H|apply Nat.eqb_refl].
+Qed.
+
+Lemma format0_property pin pan : 4 <= length pin <= 12 -> all_dec pin -> all_dec pan -> 13 <= length pan ->
+  iso0_to_bytes (dstr pin) (dstr pan) = Ok (bytes_of_nibbles (spec0 pin pan)) /\
+  length (spec0 pin pan) = 16 /\ all_nib (spec0 pin pan) /\ length (bytes_of_nibbles (spec0 pin pan)) = 8 /\
+  iso0_from_bytes (bytes_of_nibbles (spec0 pin pan)) (dstr pan) = Ok (dstr pin).
+Proof.
+  intros L F Fp Lp. assert (L14: length pin <= 14) by lia.
+  destruct (spec0_shape pin pan L14 F Fp Lp) as [Ls Fs].
+  split; [apply iso0_to_bytes_spec; auto|]. split; [exact Ls|]. split; [exact Fs|].
+  split; [apply bytes_of_nibbles_length; rewrite Ls; reflexivity|apply iso0_from_bytes_spec; auto].
+Qed.
+
+Lemma format4_property pin rnd : 4 <= length pin <= 12 -> all_dec pin -> (rnd < 2 ^ 64)%N ->
+  iso4_to_bytes (dstr pin) rnd = Ok (bytes_of_nibbles (spec4 pin rnd)) /\
+  length (spec4 pin rnd) = 32 /\ all_nib (spec4 pin rnd) /\ length (bytes_of_nibbles (spec4 pin rnd)) = 16 /\
+  iso4_from_bytes (bytes_of_nibbles (spec4 pin rnd)) = Ok (dstr pin).
+Proof.
+  intros L F Hr. assert (L14: length pin <= 14) by lia.
+  destruct (spec4_shape pin rnd L14 F) as [Ls Fs].
+  split; [apply iso4_to_bytes_spec; auto|]. split; [exact Ls|]. split; [exact Fs|].
+  split; [apply bytes_of_nibbles_length; rewrite Ls; reflexivity|apply iso4_from_bytes_spec; auto].
+Qed.
+
+Lemma encrypted_property (E D : bytes -> bytes -> bytes) :
+  (forall k x, D k (E k x) = x) -> (forall k x, length (E k x) = length x) ->
+  forall key k pin pan rnd, unhexlify_str key = Ok k ->
+  4 <= length pin <= 12 -> all_dec pin -> all_dec pan -> 13 <= length pan -> (rnd < 2 ^ 64)%N ->
+  (In (length k) [8; 16; 24] ->
+     iso0_to_enc TDES E key (dstr pin) (dstr pan) = Ok (E k (bytes_of_nibbles (spec0 pin pan))) /\
+     iso0_from_enc TDES D key (E k (bytes_of_nibbles (spec0 pin pan))) (dstr pan) = Ok (dstr pin)) /\
+  (In (length k) [16; 24; 32] ->
+     iso4_to_enc AES E key (dstr pin) rnd = Ok (E k (bytes_of_nibbles (spec4 pin rnd))) /\
+     iso4_from_enc AES D key (E k (bytes_of_nibbles (spec4 pin rnd))) = Ok (dstr pin)) /\
+  (In (length k) [8; 16; 24] ->
+     iso4_to_enc TDES E key (dstr pin) rnd = Ok (E k (bytes_of_nibbles (spec4 pin rnd))) /\
+     iso4_from_enc TDES D key (E k (bytes_of_nibbles (spec4 pin rnd))) = Ok (dstr pin)).
+Proof.
+  intros DE E_len key k pin pan rnd Hk L F Fp Lp Hr. assert (L14: length pin <= 14) by lia.
+  split; [|split]; intros Hs.
+  - apply (iso0_enc_spec E D DE E_len TDES key k pin pan); auto. apply key_size_ok_iff. exact Hs.
+  - apply (iso4_enc_spec E D DE E_len AES key k pin rnd); auto. apply key_size_ok_iff. exact Hs.
+  - apply (iso4_enc_spec E D DE E_len TDES key k pin rnd); auto. apply key_size_ok_iff. exact Hs.
+Qed.
+
+Lemma tsp_property pan kidx pin : 12 <= length pan -> 4 <= length pin -> (kidx < 10)%N -> all_dec pan -> all_dec pin ->
+  get_tsp (dstr pan) kidx (dstr pin) = dstr (tsp_spec pan kidx pin) /\
+  length (tsp_spec pan kidx pin) = 16 /\ all_dec (tsp_spec pan kidx pin) /\
+  unhexlify_str (dstr (tsp_spec pan kidx pin)) = Ok (bytes_of_nibbles (tsp_spec pan kidx pin)) /\
+  length (bytes_of_nibbles (tsp_spec pan kidx pin)) = 8.
+Proof.
+  intros Lp L Hk Fp F. destruct (tsp_spec_shape pan kidx pin Lp L Hk Fp F) as [Lt Ft].
+  destruct (tsp_bytes pan kidx pin Lp L Hk Fp F) as [U Lb].
+  split; [apply get_tsp_spec; exact Hk|]. auto.
+Qed.
+
+Lemma decimalise_property (ct : bytes) :
+  pvv_of_ct ct = dstr (visa_spec (nibbles_of_bytes ct)) /\
+  (2 <= length ct -> length (pvv_of_ct ct) = 4 /\ all_dec (visa_spec (nibbles_of_bytes ct))).
+Proof.
+  split; [apply pvv_of_ct_spec|]. intros L.
+  destruct (visa_spec_shape (nibbles_of_bytes ct) (nibbles_of_bytes_nib ct)) as [L4 F4].
+  - rewrite nibbles_of_bytes_length. lia.
+  - split; [|exact F4]. rewrite pvv_of_ct_spec. unfold dstr. rewrite map_length. exact L4.
+Qed.
+
+Lemma pvv_property (E : bytes -> bytes -> bytes) : (forall k x, length (E k x) = length x) ->
+  forall pin key k kidx pan, unhexlify_str key = Ok k -> In (length k) [8; 16; 24] ->
+  12 <= length pan -> 4 <= length pin -> (kidx < 10)%N -> all_dec pan -> all_dec pin ->
+  let ct := E k (bytes_of_nibbles (tsp_spec pan kidx pin)) in
+  calculate_pvv E (dstr pin) key kidx (dstr pan) = Ok (dstr (visa_spec (nibbles_of_bytes ct))) /\
+  to_pvv E (dstr pin) key kidx (dstr pan) = Ok (dstr (visa_spec (nibbles_of_bytes ct))) /\
+  length (visa_spec (nibbles_of_bytes ct)) = 4 /\ all_dec (visa_spec (nibbles_of_bytes ct)).
+Proof.
+  intros E_len pin key k kidx pan Hk Hs Lp L Hi Fp F.
+  apply (calculate_pvv_spec E E_len pin key k kidx pan); auto. apply key_size_ok_iff. exact Hs.
+Qed.
+
+Lemma xor_property :
+  (forall ps, Forall hexstr ps -> zmk_combine ps = Ok (fmt_0x 32 (combine_N (map hexN ps)))) /\
+  (forall ps qs, Forall hexstr ps -> Permutation ps qs -> zmk_combine ps = zmk_combine qs) /\
+  (forall k ps, hexstr k -> Forall hexstr ps -> zmk_combine (k :: k :: ps) = zmk_combine ps) /\
+  (forall ps, Forall (fun s => hexstr s /\ length s <= 32) ps ->
+     let nibs := nibbles_of_N 32 (combine_N (map hexN ps)) in
+     zmk_combine ps = Ok (map hexch nibs) /\ length nibs = 32 /\ all_nib nibs /\
+     N_of_nibbles nibs = combine_N (map hexN ps) /\
+     unhexlify_str (map hexch nibs) = Ok (bytes_of_nibbles nibs) /\ length (bytes_of_nibbles nibs) = 16) /\
+  (forall ps, Forall (fun s => length s = 32 /\ forallb is_hex s = true) ps ->
+     zmk_combine ps = Ok (map hexch (combine_fields (map nibs_of_hex ps)))).
+Proof.
+  split; [exact zmk_combine_spec|]. split; [exact zmk_combine_perm|]. split; [exact zmk_combine_twice|].
+  split; [exact zmk_combine_bounded|exact zmk_combine_fields].
+Qed.
+
+Lemma kcv_enc_property (E : bytes -> bytes -> bytes) :
+  (forall k n, In (length k) [8; 16; 24] ->
+     calculate_kcv E k n = Ok (map hexch (kcv_spec (nibbles_of_bytes (E k (repeat x00 16))) n))) /\
+  (forall ps master mk, Forall (fun s => hexstr s /\ length s <= 32) ps ->
+     unhexlify_str master = Ok mk -> In (length mk) [8; 16; 24] ->
+     let nibs := nibbles_of_N 32 (combine_N (map hexN ps)) in
+     let key := bytes_of_nibbles nibs in
+     let kcv := map hexch (kcv_spec (nibbles_of_bytes (E key (repeat x00 16))) 6) in
+     get_zone_master_key E ps = Ok (map hexch nibs, kcv) /\
+     get_enc_zone_master_key E master ps = Ok (hexlify (E mk key), kcv)).
+Proof.
+  split.
+  - intros k n Hs. apply calculate_kcv_spec. apply key_size_ok_iff. exact Hs.
+  - intros ps master mk F Hm Hs. apply (zone_master_key_spec E ps master mk F Hm). apply key_size_ok_iff. exact Hs.
 Qed.
